@@ -12,7 +12,10 @@
 
 use super::DeferredBeneficiaryReward;
 use crate::{TxId, TxVersion, account::FinalizedAccount};
+#[cfg(not(grevm_verif))]
 use parking_lot::RwLock;
+#[cfg(grevm_verif)]
+use crate::verif::sync::RwLock;
 use revm_state::{Account, AccountInfo};
 
 /// The complete version chain used to resolve one beneficiary read.
